@@ -76,7 +76,7 @@ package setec
 //@   ensures [C13 flush.at-most-one] cacheWrites == old(cacheWrites) || cacheWrites == old(cacheWrites) + 1
 //@   ensures [C12 flush.noeffect] sameEntries(s) && net == old(net)
 //@ func (FileCache).Write(f, data) (err)
-//@   ensures [C05,C11,C13,C18 filecache.atomic-0600] err == nil ==> disk == diskWrite(old(disk), str(f), bytes(data), 384)
+//@   ensures [C05,C11,C13,C18,C19 filecache.atomic-0600] err == nil ==> disk == diskWrite(old(disk), str(f), bytes(data), 384)
 //@   ensures [C11,C13,C18 filecache.fail-keeps-old] err != nil ==> disk == old(disk)
 
 //@ func (FileCache).Read(f) (b, err)
@@ -212,7 +212,7 @@ package setec
 //@   ensures [C10 sleep.waits-once] waits == old(waits) + 1 && clock >= old(clock) && net == old(net)
 //@ func (*Store).isActiveSetValid(s) (ok)
 //@   requires s != nil
-//@   ensures [C13 valid.iff] ok == (forall k string :: has(s.active.m, k) ==> (k != "" && s.active.m[k] != nil && s.active.m[k].Secret != nil))
+//@   ensures [C13,C19 valid.iff] ok == (forall k string :: has(s.active.m, k) ==> (k != "" && s.active.m[k] != nil && s.active.m[k].Secret != nil))
 //@   loop 0
 //@     invariant [so-far] forall k string :: visited(k) ==> (k != "" && s.active.m[k] != nil && s.active.m[k].Secret != nil)
 //@     invariant [sub] forall k string :: visited(k) ==> has(s.active.m, k)
@@ -268,6 +268,7 @@ package setec
 //@ func parseFields(obj) (fi, err)
 //@   ensures [C20 parse.nil-rejected] obj == nil ==> err != nil
 //@   ensures [C20 parse.fail-empty] err != nil ==> len(fi) == 0
+//@   at call VisibleFields: assert [C10,C20 parse.walks-the-visible-fields-of-the-struct-type-embedded-ones-included] arg_t == vt
 //@   loop 0
 //@     invariant [bound] iter >= 0
 //@     progress [C20 parse.secret-name-is-the-first-tag-part] !defined(fi) || !ok || (fi.secretName == seqNth(split(tag, ","), 0))
@@ -355,7 +356,9 @@ package setec
 // Lock-set discipline: the cached entries are read and written only while the store lock is held, except during
 // construction (the store is not shared yet) and in helpers whose callers hold the lock.
 //@ guarded [C12 entries-accessed-under-the-store-lock] cachedSecret: Secret, LastAccess, Declared by active.Mutex of Store except NewStore, initializeActive, isActiveSetValid, flushCacheLocked, hasExpired, lastAccessTime
-//@ nocall [C05,C11,C13,C18 cache-written-only-atomically] in client/setec: os.WriteFile, os.Create, os.OpenFile, os.Rename, os.Truncate, (*os.File).Write, (*os.File).WriteString
+//@ nocall [C05,C11,C13,C18,C19 cache-written-only-atomically] in client/setec: os.WriteFile, os.Create, os.OpenFile, os.Rename, os.Truncate, (*os.File).Write, (*os.File).WriteString
+// a Secret field is filled with the store's live handle because *Secret is not a BinaryUnmarshaler
+//@ pin [C20 secret-field-gets-the-live-handle] method Secret.UnmarshalBinary absent
 //@ nocall [C11 poll-ticker-never-rearmed] in client/setec: (*time.Ticker).Reset
 //@ nocall [C11,C12,C16 coalescing-never-abandoned] in client/setec: (*golang.org/x/sync/singleflight.Group).Forget
 //@ callers [C16 lookup-closure-only-via-do] (*client/setec.Store).lookupSecretInternal$1 only-from (*client/setec.Store).lookupSecretInternal (value)
@@ -413,14 +416,18 @@ package setec
 //@        (err != nil && err != api.ErrNotFound && err != api.ErrAccessDenied && err != api.ErrValueNotChanged)
 //@   ensures [C16 do.transport-error-is-wrapped] (httpCalls == old(httpCalls) + 1 && lastDoErr != nil) ==> (err != nil && errIs(err, lastDoErr))
 //@   ensures [C09 do.one-request] httpCalls == old(httpCalls) || httpCalls == old(httpCalls) + 1
+//@   ensures [C09,C18 do.a-successful-request-for-a-value-yields-one] err == nil ==> ptrNonNil(resp)
 //@   ensures [C09 do.sentinel-only-from-status] (err == api.ErrNotFound ==> (httpCalls == old(httpCalls) + 1 && lastDoErr == nil && lastStatus == 404)) && (err == api.ErrAccessDenied ==> (httpCalls == old(httpCalls) + 1 && lastDoErr == nil && lastStatus == 403)) && (err == api.ErrValueNotChanged ==> (httpCalls == old(httpCalls) + 1 && lastDoErr == nil && lastStatus == 304))
+//@   at call ReadAll: assert [C09,C18 do.reads-the-whole-response-body] arg_r == httpResp.Body
 //@   at call do: assert [C10,C16 do.request-ends-with-the-callers-context] reqCtx(ref(arg_req)) == ctx
 //@   at call Set: assert [C08 do.headers] (arg_key == "Content-Type" && arg_value == "application/json") || (arg_key == "Sec-X-Tailscale-No-Browsers" && arg_value == "setec")
 //@ func (Client).GetIfChanged(c, ctx, name, oldVersion) (sv, err)
+//@   ensures [C09,C18 clientgic.value-on-success] err == nil ==> sv != nil
 //@   ensures [C09,C16 clientgic.returns-the-request-outcome-unchanged] (defined(call_do_0) && sv == call_do_0 && err == call_do_1) || (defined(call_Get_0) && sv == call_Get_0 && err == call_Get_1)
 //@   at call Get: assert [C09 clientgic.zero-is-get] oldVersion == 0 && arg_name == name
 //@   at call do: assert [C09 clientgic.conditional-request] oldVersion != 0 && arg_req.Name == name && arg_req.Version == oldVersion && arg_req.UpdateIfChanged && arg_path == "/api/get"
 //@ func (Client).Get(c, ctx, name) (sv, err)
+//@   ensures [C09,C18 clientget.value-on-success] err == nil ==> sv != nil
 //@   ensures [C09,C16 clientget.returns-the-request-outcome-unchanged] sv == call_do_0 && err == call_do_1
 //@   at call do: assert [C09 clientget.request] arg_req.Name == name && arg_req.Version == 0 && !arg_req.UpdateIfChanged && arg_path == "/api/get"
 
@@ -431,6 +438,7 @@ package setec
 
 // the remaining client methods: each sends exactly one request, to the endpoint of its name, carrying its arguments
 //@ func (Client).GetVersion(c, ctx, name, version) (sv, err)
+//@   ensures [C09,C18 clientgetversion.value-on-success] err == nil ==> sv != nil
 //@   ensures [C09,C18 clientgetversion.returns-the-request-outcome-unchanged] sv == call_do_0 && err == call_do_1
 //@   at call do: assert [C18 clientgetversion.request] arg_req.Name == name && arg_req.Version == version && !arg_req.UpdateIfChanged && arg_path == "/api/get"
 //@ func (Client).List(c, ctx) (infos, err)
